@@ -20,7 +20,7 @@
     NOT covered by a theorem (correspondence + oracle only, see TESTED_NOT_PROVED in harness/props/C04.py): the
     "all centre hydrogens explicit" branch (default mode: _strip_explicit_h, hydrogen expansion, _explicit_h). *)
 From Coq Require Import List NArith ZArith Bool.
-From SK Require Import lib.Tok lib.LGraph model.C03_Model model.C04_Model proof.C04_Any proof.C04_Check proof.C04_Proof proof.C04_Examples.
+From SK Require Import lib.Tok lib.LGraph model.C03_Model model.C04_Model proof.C04_Any proof.C04_Check proof.C04_Proof proof.C04_DefaultProof proof.C04_Examples.
 Import ListNotations.
 Local Open Scope Z_scope.
 
@@ -95,6 +95,27 @@ Theorem C04_identity_glue_any_rule_symmetric : forall (A B : hostg) (rc : its) (
   exists T : its, glue A rc (aut_map rc s) = Some T /\ regen_exact T A B = true.
 Proof. exact glue_any_rule_symmetric. Qed.
 Print Assumptions C04_identity_glue_any_rule_symmetric.
+
+(** DEFAULT (explicit-hydrogen) mode, the "all centre hydrogens explicit" branch of the precondition, for the reaction's
+    own templates -- centre or full ITS, forwards or backwards.  [default_okb A B tpl] is the boolean form of that way of
+    writing (evaluated by [run_c04] on every case and recomputed by the harness): no atom changes its implicit hydrogen
+    count and no count is negative; every hydrogen atom is bonded on both sides, and only to non-hydrogen atoms; it is in
+    the template with all its bonds; _strip_explicit_h can remove it (non-hydrogen neighbour on both template sides:
+    excludes H2, H+).  Then: the reactor's rule exists (SynRule.__init__ with implicit_h=True never fails here), the
+    matcher's pattern is its left side, the identity is a valid match on the substrate (own side with implicit
+    hydrogens), and the glued ITS decomposes to the pair of implicit-hydrogen forms of the reaction's two sides.  This is
+    the ITS BEFORE _explicit_h re-materialises the migrating hydrogens; that last stage is covered by the correspondence
+    (C03 proves its bookkeeping).  The characterisation of _strip_explicit_h used here is C03's (proof/C03_StripCor.v). *)
+Theorem C04_identity_glue_default : forall (core invert : bool) (G H : hostg),
+  pair_wfb G H = true -> mode_E G H = true ->
+  default_okb (if invert then H else G) (if invert then G else H) (template core invert G H) = true ->
+  (core = true -> centre_carries (its_construct G H) = true) ->
+  exists (rc : its) (l r : molg), rule_of core invert G H = Some (rc, l, r) /\ pattern_of l = l /\
+    match_rcb (substrate invert G H) rc (id_map (node_ids (pattern_of l))) = true /\
+    exists T : its, glue (substrate invert G H) rc (id_map (node_ids (pattern_of l))) = Some T /\
+      regen_exact T (substrate invert G H) (h_to_implicit_host (if invert then G else H)) = true.
+Proof. exact default_identity_glue_all. Qed.
+Print Assumptions C04_identity_glue_default.
 
 (** PARTIAL.  Full clause wanted: the reaction is among the reactor's results.  Proved: for ANY list of mappings the
     pruning keeps, if it contains the identity then its_list contains an ITS that decomposes to the reaction.  Missing
